@@ -153,6 +153,27 @@ def run(ctx):
                 ctx.tick(max(N, 1), ("plN", p, lo, N))
                 for c, e, o in v:
                     ctx.violation(c, {"spec": spec, "N": N, "t": ts.tolist()}, e, o)
+    # one long-lived sampler: the configuration's spectrum object is replaced between calls (as the CLI overrides do)
+    from nuspacesim.config import Simulation
+    from nuspacesim.simulation.spectra.spectra import Spectra
+
+    cfgh = make_config({"type": "mono", "logE": 8.0})
+    sh = Spectra(cfgh)
+    seq = [{"type": "mono", "logE": 8.0}, {"type": "mono", "logE": 9.3}, {"type": "power", "index": 2.0, "lo": 10.0, "hi": 12.0}, {"type": "mono", "logE": 6.5}, {"type": "power", "index": 1.0, "lo": 6.0, "hi": 7.0}]
+    for si, spc in enumerate(seq):
+        cfgh.simulation.spectrum = make_config(spc).simulation.spectrum
+        stub = RngStub(feeds=[np.array([0.25, 0.5, 0.75])])
+        with stub.installed():
+            le, nrm, ws = sh(3)
+        le = np.asarray(le, dtype=float)
+        ctx.tick(3, ("spectrum_replaced", si))
+        if spc["type"] == "mono":
+            ok = bool(np.all(le == spc["logE"]))
+        else:
+            ok = bool(np.all((le >= spc["lo"]) & (le <= spc["hi"])) and np.all(np.abs(cdf_ref(le, spc["index"], spc["lo"], spc["hi"]) - np.array([0.25, 0.5, 0.75]) * (1 + np.finfo(float).eps)) <= 1e-12))
+        if not ok:
+            ctx.violation("follows_configured_spectrum", {"history": seq[: si + 1], "hist": True}, spc, le.tolist())
+            break
     # monotone in t along the alphabet (inverse CDF is non-decreasing)
     tsort = np.sort(ts)
     for p in idx:
@@ -165,6 +186,23 @@ def run(ctx):
 
 
 def replay(case):
+    if case.get("hist"):
+        from nuspacesim.simulation.spectra.spectra import Spectra
+
+        cfgh = make_config(case["history"][0])
+        sh = Spectra(cfgh)
+        for spc in case["history"]:
+            cfgh.simulation.spectrum = make_config(spc).simulation.spectrum
+            with RngStub(feeds=[np.array([0.25, 0.5, 0.75])]).installed():
+                le, nrm, ws = sh(3)
+            le = np.asarray(le, dtype=float)
+            if spc["type"] == "mono":
+                ok = bool(np.all(le == spc["logE"]))
+            else:
+                ok = bool(np.all((le >= spc["lo"]) & (le <= spc["hi"])))
+            if not ok:
+                return [("follows_configured_spectrum", spc, le.tolist())]
+        return []
     v, logE = judge(case["spec"], case["N"], case["t"])
     out = list(v)
     if case.get("pair") and logE is not None and len(logE) == 2 and logE[1] < logE[0]:
